@@ -1179,8 +1179,11 @@ class PyCdlib:
                     # An important side-effect of this is that zero-length files
                     # or symlinks get an inode, but it is always set to length 0
                     # and location 0 and not actually written out.  This is so
-                    # that we can 'link' everything through the Inode.
-                    if len_to_use == 0 or is_symlink:
+                    # that we can 'link' everything through the Inode.  The
+                    # same goes for the child link record of a relocated Rock
+                    # Ridge directory; it is a placeholder, and the extent and
+                    # length in it do not describe any data on the ISO.
+                    if len_to_use == 0 or is_symlink or rr_cl:
                         len_to_use = 0
                         extent_to_use = 0
 
